@@ -117,6 +117,12 @@ def _gen(rng, n):
         if kind == 2:
             r2 = r1
         c1 = (rng.uniform(-100, 100), rng.uniform(-100, 100)) if kind % 2 else (0.0, 0.0)
+        if kind == 7 and i % 3 == 0:
+            # centres far from the origin relative to the radii (added after seed C17-5: a distance computed from |c1|^2 + |c2|^2 - 2 c1.c2
+            # loses everything to cancellation there); powers of two keep c1 + offsets exact
+            far = rng.choice([2.0 ** 20, 2.0 ** 23, 2.0 ** 26])
+            c1 = (far * rng.choice([-1, 1]), far * rng.choice([-1, 0, 1]))
+            r1, r2 = rng.choice(decimals), rng.choice(decimals)
         ang = rng.choice([0.0, math.pi / 2, math.pi, rng.uniform(0, 2 * math.pi)])
         mode = rng.randrange(6)
         if mode == 0:
